@@ -795,21 +795,6 @@ func wsJudge(p *wsPlan, byz bool, results [2][]wsRecv, recvDone [2]bool, wire [2
 		}
 	}
 	dirName := []string{"client->server", "server->client"}
-	// --- wire: masking
-	for d := 0; d < 2; d++ {
-		for i, f := range wire[d].Frames {
-			if d == 0 && !f.Masked {
-				return vs.Violf("C59", "client_frame_unmasked", fmt.Sprintf("op%d", f.Op), "client->server frame #%d (opcode %d, %d bytes) is not masked on the wire", i, f.Op, f.Len)
-			}
-			if d == 1 && f.Masked {
-				return vs.Violf("C59", "server_frame_masked", fmt.Sprintf("op%d", f.Op), "server->client frame #%d (opcode %d, %d bytes) is masked on the wire", i, f.Op, f.Len)
-			}
-		}
-		if wire[d].cur != nil || len(wire[d].hdr) > 0 {
-			// a sender never leaves a frame half written (writes do not fail in this simulation)
-			return vs.Violf("C59", "wire_incomplete_frame", dirName[d], "%s: the byte stream ends inside a frame (header bytes %d, payload bytes missing %d)", dirName[d], len(wire[d].hdr), wire[d].left)
-		}
-	}
 	// --- messages per direction
 	for d := 0; d < 2; d++ {
 		var msgs []wsOp
@@ -843,8 +828,11 @@ func wsJudge(p *wsPlan, byz bool, results [2][]wsRecv, recvDone [2]bool, wire [2
 				break // don't-care from here on
 			}
 			if i >= len(msgs) {
-				if r.Err != nil && anyFired {
-					break // connection torn down by the reaction to a fault in the other direction
+				if r.Err != nil && r.Err != ErrFrameTooLarge {
+					// the receive after the last message failed: by itself that contradicts
+					// no clause (what it breaks, an unanswered PING, is checked below)
+					vs.G.Inc("stat.error_after_last_message")
+					break
 				}
 				return vs.Violf("C59", "extra_message", dirName[d], "%s: receive #%d returned (err=%v, type %d, %d bytes) but only %d messages were sent", dirName[d], i, r.Err, r.Type, len(r.Data), len(msgs))
 			}
@@ -854,7 +842,7 @@ func wsJudge(p *wsPlan, byz bool, results [2][]wsRecv, recvDone [2]bool, wire [2
 			if op.Bin {
 				wantType = BinaryFrame
 			}
-			sig := fmt.Sprintf("%s:len%d", dirName[d], wsLenClass(op.Len))
+			sig := fmt.Sprintf("%s:len%s", dirName[d], wsLenClass(op.Len))
 			if r.Err != nil && r.Err != ErrFrameTooLarge {
 				if anyFired {
 					break
@@ -907,7 +895,22 @@ func wsJudge(p *wsPlan, byz bool, results [2][]wsRecv, recvDone [2]bool, wire [2
 		}
 		if !anyFired && len(res) < len(msgs) {
 			op := msgs[len(res)]
-			return vs.Violf("C59", "missing_message", fmt.Sprintf("%s:len%d", dirName[d], wsLenClass(op.Len)), "%s: %d messages sent, all bytes delivered, but only %d receives completed (next: %d bytes, limit %d)", dirName[d], len(msgs), len(res), op.Len, max)
+			return vs.Violf("C59", "missing_message", fmt.Sprintf("%s:len%s", dirName[d], wsLenClass(op.Len)), "%s: %d messages sent, all bytes delivered, but only %d receives completed (next: %d bytes, limit %d)", dirName[d], len(msgs), len(res), op.Len, max)
+		}
+	}
+	// --- wire: masking
+	for d := 0; d < 2; d++ {
+		for i, f := range wire[d].Frames {
+			if d == 0 && !f.Masked {
+				return vs.Violf("C59", "client_frame_unmasked", fmt.Sprintf("op%d", f.Op), "client->server frame #%d (opcode %d, %d bytes) is not masked on the wire", i, f.Op, f.Len)
+			}
+			if d == 1 && f.Masked {
+				return vs.Violf("C59", "server_frame_masked", fmt.Sprintf("op%d", f.Op), "server->client frame #%d (opcode %d, %d bytes) is masked on the wire", i, f.Op, f.Len)
+			}
+		}
+		if wire[d].cur != nil || len(wire[d].hdr) > 0 {
+			// a sender never leaves a frame half written (writes do not fail in this simulation)
+			return vs.Violf("C59", "wire_incomplete_frame", dirName[d], "%s: the byte stream ends inside a frame (header bytes %d, payload bytes missing %d)", dirName[d], len(wire[d].hdr), wire[d].left)
 		}
 	}
 	// --- PING / PONG
